@@ -35,4 +35,11 @@ def model_ops_for_prop_case(case):
         r = lib.outcome(lambda: sorted(lib.wl(e) for e in u.induced_edges_set))
         if r[0] == "ok":
             ops.append(op("g.inducedE", str(u.name))); exp.append("ok " + ";".join(r[1]))
+    for o in g.paths:
+        if o.virtual or o.record_type != "O" or str(o.name) == "*":
+            continue
+        r = lib.outcome(lambda: "|".join((str(x.name) if x.line.record_type == "S" else lib.wl(x.line)) + x.orient for x in o.captured_path))
+        if r[0] == "foreign":
+            continue        # cyclic nesting: RecursionError (C07)
+        ops.append(op("g.captured", str(o.name))); exp.append("ok " + r[1] if r[0] == "ok" else "gerr " + r[1])
     return ops, exp
